@@ -145,4 +145,15 @@ META["C17"] = dict(
         "abstract classes only.",
    technique="TLA+ reference function (HttpProxy.tla) + TLC enumeration of the whole abstract case space, one real connection per case + TLC trace validation",
    design_ref="DESIGN.md 3/C17")
+META["C06"] = dict(
+   text="Auth.tla gives the reference outcome of the preamble (accept iff the hash is right and the whole preamble arrived, consuming "
+        "exactly hash + length + declared padding; reject iff a complete wrong hash; truncated otherwise). MC_Auth, an "
+        "implementation-shaped acceptor (read-exactly per field) over a fragmented input, is checked against it exhaustively at "
+        "small scale for every deviation position, padding length, truncation point and fragmentation. All 2384 enumerated "
+        "behaviours are concretised (boundary padding lengths up to 65535, four passwords, bit/byte/related-password deviations) "
+        "and replayed into the real authenticate_client; raw TLS connections exercise the real server, where only a correct and "
+        "complete preamble may lead to a dial (cfg-guarded hook) and every other connection must get no byte back and be closed. "
+        "Trace_Auth.tla judges with the real constants (32, 2).",
+   technique="TLA+ spec (Auth.tla) + TLC exhaustive MC of the acceptor + all TLC behaviours replayed into authenticate_client + real-server TLS rig + TLC trace validation",
+   design_ref="DESIGN.md 3/C06")
 NOT_YET = "check not built yet in this round (planned: DESIGN.md section 3); not claimed"
